@@ -251,30 +251,57 @@ def replay_grid(chk, emitted, pick, rng, t):
 def arbitrary_angles(chk, rng, count):
     """pointwise for arbitrary angles: the value at receptor + p is the closed form at (p.e_up, p.e_cross)"""
     n = 0
-    for i in range(count):
+    big = [(700, 30, 180.0), (30, 700, 270.0), (613, 41, 0.0), (1100, 12, None), (12, 1100, 90.0)]      # (rows, columns, wind direction)
+    for i in range(count + len(big)):
         ph = PHYS[i % len(PHYS)]
         wd = float(rng.uniform(-720, 720)) if i % 4 else float(rng.integers(-8, 9) * 45)
         res = float(rng.choice([2.0, 5.0, 7.5]))
         nx, ny = int(rng.integers(3, 30)), int(rng.integers(3, 30))
+        if i >= count:
+            # LARGE grids: many more rows / columns than any block size an implementation might use, footprint mass at the far end
+            ny, nx, wd = big[i - count]
+            res = 1.0
         x0, y0 = float(rng.uniform(-60, 10)), float(rng.uniform(-60, 10))
         dom = [x0, x0 + nx * res, y0, y0 + ny * res]
         mxy = [float(rng.uniform(x0, x0 + nx * res)), float(rng.uniform(y0, y0 + ny * res))]
+        if i >= count:
+            # receptor near the downwind edge so that the whole grid is upwind
+            x0, y0 = -float(nx) * res / 2, -float(ny) * res / 2
+            dom = [x0, x0 + nx * res, y0, y0 + ny * res]
+            far = {180.0: (0.0, y0 + ny * res - 3.0), 270.0: (x0 + nx * res - 3.0, 0.0), 0.0: (0.0, y0 + 3.0), 90.0: (x0 + 3.0, 0.0)}
+            mxy = list(far.get(wd, (x0 + 3.0, 0.0)))
         sc = {"kind": "angle", "wd": wd, "phys": ph, "domain": dom, "grid_res": res, "mxy": mxy}
         chk.case(json.dumps(sc, sort_keys=True))
         gx, gy, ffm = call_fp(ph, dom, res, mxy, wd)
-        a = math.radians(wd)
+        a = math.radians(90.0 if wd is None else wd)
         ex, ey = math.sin(a), math.cos(a)           # where the wind comes from, clockwise from north
+        if wd is None or wd % 90.0 == 0.0:
+            ex, ey = float(round(ex)), float(round(ey))
         px, py = gx - mxy[0], gy - mxy[1]
         up = px * ex + py * ey
         cr = -px * ey + py * ex
         p = km_params(ph["zm"], ph["z0"], ph["ws"], ph["ustar"], ph["L"])
         want = km_point(p, ph["sigma_v"], up, cr) * res ** 2
         n += 1
+        if i % 2 == 0 and i < count:
+            # call history: the same grid, resolution and wind direction again with ANOTHER receptor, then the first one
+            # again - nothing of an earlier call may survive in the process
+            mxy2 = [mxy[0] + 1.5 * res, mxy[1] - 2.25 * res]
+            _, _, ffm2 = call_fp(ph, dom, res, mxy2, wd)
+            up2 = (gx - mxy2[0]) * ex + (gy - mxy2[1]) * ey
+            cr2 = -(gx - mxy2[0]) * ey + (gy - mxy2[1]) * ex
+            want2 = km_point(p, ph["sigma_v"], up2, cr2) * res ** 2
+            _, _, ffm3 = call_fp(ph, dom, res, mxy, wd)
+            n += 2
+            if not close(ffm2, want2, 1e-7) or not np.array_equal(ffm3, ffm):
+                chk.violation("wind direction %s: after a call with the receptor at %s, the call with the receptor at %s on the same grid does not return that receptor's footprint (or the repeated first call differs)"
+                              % (wd, [round(x, 3) for x in mxy], [round(x, 3) for x in mxy2]), dict(sc, second_receptor=mxy2), klass={"check": "call_history"})
+                continue
         # cells within rounding of the abeam line may fall on either side of x > 0: both give (numerically) zero
         if not close(ffm, want, 1e-7):
             bad = np.argwhere(~(np.abs(ffm - want) <= 1e-7 * np.abs(want) + 1e-14 * max(np.abs(want).max(), 1e-300) + 1e-290))
             i0, j0 = (int(x) for x in bad[0])
-            chk.violation("wind direction %.3f: cell (%d,%d) holds %.10g, the closed form at the rotated point gives %.10g" % (wd, i0, j0, ffm[i0, j0], want[i0, j0]), sc,
+            chk.violation("wind direction %s, grid %dx%d: cell (%d,%d) holds %.10g, the closed form at the rotated point gives %.10g" % (wd, ffm.shape[0], ffm.shape[1], i0, j0, ffm[i0, j0], want[i0, j0]), sc,
                           klass={"check": "angle"})
     return n
 
